@@ -78,6 +78,11 @@ CLAIMED["C20"] = ("§3 C20",
     "Narrow: decides that cue trim writes files only after the trimmed package was rebuilt through the overlay and diffed against the original with a non-Identity result aborting (or --ignore), never on --dry-run or after a trim error; that the dependency walker uses every child expression of each node/clause kind it handles; and that both cooperating sites exclude self-dependent comprehension output. It does not decide that trim.Files removes only implied fields nor idempotence; walker cases that are absent are listed for review, not judged.",
     "diff.Final.Diff is the oracle the command relies on (it compares scalars by kind only, see seeded/C20-a)")
 
+CLAIMED["C06"] = ("§3 C06",
+    "constant folding of the apd context precision reaching each arithmetic entry point (through method values, selector functions and package initialisers), CFG gates on condition flags and zero-divisor tests",
+    "Narrow: decides that integer +, -, * and the multiplier of number literals run in an exact decimal context (precision 0) while / and ** use precision >= 34, that numOp returns a number only without error/division-by-zero, that integer division tests for a zero divisor first, that the literal's integral test consults Inexact, and that / yields a float kind. It does not decide rounding correctness, comparison order, Euclidean identities, multiplier values or print/parse round trips. The defect found by this rule (34-digit rounding of big integers and of multiplier literals) was repaired in /repo (fix: commit 0f65d2f).",
+    "apd semantics of precision 0 trusted; float +,-,* keep the 34-digit context (the spec permits rounding of floats)")
+
 # properties not claimed (yet) -> reason
 NOT_APPLICABLE = {
     "C03": "value-level: the content is the cell values of the bound-simplification decision table over numbers; no shape rule separates a correct table from an off-by-one (DESIGN.md §4)",
